@@ -949,7 +949,7 @@ func generate(rng *hx.Rand, thorough bool, jobs chan<- func() string) {
 
 	// ---- Prop.Decode / Response.DecodeProp
 	goodTags := []string{"DAV: a", "DAV: b", "urn:x a", "X a", " a"}
-	badTags := []string{"", "a", "a b c", "a ", "a  b", ","}
+	badTags := []string{"", "a", "a b c", "a ", "a  b", ",", " "}
 	propNames := [][2]string{{"DAV:", "a"}, {"DAV:", "b"}, {"urn:x", "a"}, {"X", "a"}, {"", "a"}, {"DAV:", "c"}}
 	id := 0
 	genPropRaw := func() *rspec {
